@@ -19,7 +19,8 @@ import (
 func init() {
 	harness.Register(&harness.Property{
 		ID: "C20", Run: runC20, Oracle: oracleC20,
-		Rule: "cases: (a) every text of <=7 symbols over {a, é, \\n, \\r} (21 845 texts) with every pair 0<=pos<=end<=len(bytes); random texts of <=40 symbols over {a, é, 日, space, \\n, \\r} with all / drawn pairs; " +
+		Rule: "cases: (a) every text of <=7 symbols over {a, é, \\n, \\r} (21 845 texts) with every pair 0<=pos<=end<=len(bytes); random texts of <=40 symbols over {a, é, 日, space, \\n, \\r} with all / drawn pairs; texts of <=48 bytes dense in newlines and bytes next to 0x0A (0x0B, 0x09, 0x8A ..., NUL, 0xFF) with every position; " +
+			"texts of 1-65 537 lines with positions on the first, last and boundary lines (10, 100, 1000, 10000; 64 ... 65536); call sequences on one File value; " +
 			"(b) every error returned by any entry point on byte soups and mutants. Oracle: line = number of \\n before pos, column = byte distance from the line start, the excerpt quotes exactly lines Line..EndLine with their numbers; " +
 			"Error() starts with 'syntax error: file:line+1:col+1: '. Non-trivial = a text with >=2 lines and a position on a line >=1, at the end of the buffer or on an empty last line (a), an error on a multi-line input (b); distinct by (text,pos,end).",
 		Assumptions: []string{"blank lines and the cursor line in Position.Source are presentation and are skipped when the quoted lines are extracted"},
